@@ -49,9 +49,21 @@ class EngineScenario:
         self.tap = QueueTap(self.spa._protocol, s.loop)
         self.n0 = len(self.tr.sent)
         self.ev = []           # call / ret events (with _abs time)
+        self._watch_loss(self.spa._protocol)
         self.ncall = 0
         self.tasks = []
         self.fault = fault
+
+    def _watch_loss(self, proto):
+        """log the moment the connection's transport is gone (connection_lost ran: a fatal socket error, or the
+        manager dropping the connection), whatever the scenario"""
+        orig = proto.connection_lost
+        loop = self.s.loop
+
+        def lost(exc):
+            orig(exc)
+            self.ev.append({"k": "down", "t": ms(loop.time()), "_n": next(_vl.SEQ)})
+        proto.connection_lost = lost
 
     def stalls(self, rng, p=0.04, choices=(0.25, 0.6, 1.3)):
         """from now on the event loop occasionally wakes up late (a callback that blocked it); every
@@ -80,6 +92,7 @@ class EngineScenario:
             if not tr.kw.get("allow_broadcast") and self.tap is None:
                 self.tr = tr
                 self.tap = QueueTap(proto, loop)
+                self._watch_loss(proto)
         loop.on_endpoint = on_endpoint
         self.s.enter()
         return self
@@ -125,13 +138,18 @@ class EngineScenario:
             gate = bool(spa.is_connected and sess.answering_pings())
             n_ev = len(s.events)
             sess.ev.append({"k": "call", "c": name, "gate": gate, "gated": gated, "t": ms(t0), "_n": next(_vl.SEQ)})
+            raised = None
             try:
                 await api()
+            except asyncio.CancelledError:
+                raise
+            except Exception as e:  # noqa
+                raised = type(e).__name__
             finally:
                 t1 = s.loop.time()
                 failed = any(e["ev"] == "ERROR_PROTOCOL_RETRY_COUNT_EXCEEDED" and e["task"] == name for e in s.events[n_ev:])
-                result = "refused" if (gated and not gate) else "fail" if failed else "reply"
-                sess.ev.append({"k": "ret", "c": name, "result": result, "t": ms(t1), "_n": next(_vl.SEQ)})
+                result = ("raised" if raised else "refused" if (gated and not gate) else "fail" if failed else "reply")
+                sess.ev.append({"k": "ret", "c": name, "result": result, "exc": raised or "", "t": ms(t1), "_n": next(_vl.SEQ)})
 
         t = s.loop.create_task(wrapper(), name=name)
         self.tasks.append(t)
